@@ -1,0 +1,5 @@
+//go:build !verif
+
+package phase1
+
+func verifReseed(*greedyProcessor) {}
